@@ -61,3 +61,25 @@ Example fkc_schema_wf : wf_notrace_b fkc_schema = true.
 Proof. vm_compute. reflexivity. Qed.
 Example casc_schema_wf : wf_notrace_b casc_schema = true.
 Proof. vm_compute. reflexivity. Qed.
+
+(* wiring cl (store_c06.go wiringC06Cl, used by the burst histories): cascade through an fk index and through a nullable
+   fk constraint, referrers with set index, unique index, child store and a link collection with the store they cascade from *)
+Definition w_team : name := [116;101;97;109].
+Definition w_user : name := [117;115;101;114].
+Definition w_agent : name := [97;103;101;110;116].
+Definition w_lead : name := [108;101;97;100].
+Definition w_users : name := [117;115;101;114;115].
+Definition w_grp : name := [103;114;112].
+Definition w_mem : name := [109;101;109].
+
+Definition cl_schema : schema :=
+  [ mkSdef w_team None false [(w_name, false)] [w_tagsx]
+      [CUnique w_name false; CSetIdx w_tagsx; CFkCascade w_user w_team CascDelete; CFkCascade w_user w_lead CascDelete]
+      [(w_mem, w_user, w_grp)];
+    mkSdef w_user None false [(w_name, false); (w_team, false); (w_lead, true)] [w_roles]
+      [CFkIndex w_team w_team w_users false; CFkCons w_lead w_team true; CUnique w_name false; CSetIdx w_roles]
+      [(w_grp, w_team, w_mem)];
+    mkSdef w_agent (Some w_user) false [(w_code, true)] [] [CUnique w_code true] [] ].
+
+Example cl_schema_wf : wf_notrace_b cl_schema = true.
+Proof. vm_compute. reflexivity. Qed.
